@@ -232,7 +232,7 @@ impl Family for Request {
         let key = hash_str(&rendered.to_string());
         // large enumerations are sampled: one program in VERIF_REQUEST_SAMPLE (chosen by the program text)
         let sample = std::env::var("VERIF_REQUEST_SAMPLE").ok().and_then(|v| v.parse::<u64>().ok()).unwrap_or(1);
-        if sample > 1 && key % sample != 0 {
+        if sample > 1 && (key >> 8) % sample != 0 {
             return Outcome { fail: None, nontrivial: false, key, rendered };
         }
         let work = std::env::var("VERIF_WORK").unwrap_or_else(|_| "/verif/work".into());
